@@ -2,7 +2,7 @@
    Model: Model/Conn.v (labelled transition system mirroring connection.py; one label = one event-loop
    callback or synchronous user call; every interleaving of labels is a run). *)
 From Coq Require Import NArith ZArith List Bool.
-From Verif Require Import Model.Conn Proofs.ConnCore Proofs.ConnRun Proofs.ConnQuiet.
+From Verif Require Import Model.Conn Proofs.ConnCore Proofs.ConnRun Proofs.ConnQuiet Proofs.Product Proofs.ConnPair.
 Import ListNotations.
 
 (* every transition of every reachable state - whatever the interleaving of user calls, device events, timers,
@@ -45,3 +45,15 @@ Example C05_same_turn_close_is_final :
         LFinish false; LMade; LMadeWaiter; LWake TFinish; LData [DFrame hello; DFrame discreq]; LWake TFinish; LIntr false])
   = Some (Closed, false, None).
 Proof. vm_compute. reflexivity. Qed.
+
+(* ---------------------------------------------------------------- several connections in one process *)
+(* However many other connections are starting, connected or closing in the same process (Proofs/ConnPair.v: the product of
+   connection machines), the state of each one only moves forward along ITS OWN events: *)
+Theorem C05_crowd_monotone : forall ls a b a' b' os,
+  reachable a -> pair_run (a, b) ls = Some ((a', b'), os) -> (rank (cs a) <= rank (cs a'))%nat.
+Proof.
+  intros ls a b a' b' os Hr H. destruct (pair_projects _ _ _ _ _ _ H) as [HA _].
+  exact (C05_runs_monotone _ _ _ _ Hr HA).
+Qed.
+(* (that the code has no state outside the connection - no process-wide throttle a start could queue behind - is what
+   crowd_probe of checks/c05.py tests) *)
